@@ -14,7 +14,10 @@ fn arr(ids: &[u32], class: usize, prio: i32) -> SubmitSpec {
     }
 }
 fn g(id: u32, deps: &[u32], class: usize, prio: i32) -> GraphTask {
-    GraphTask { id, deps: deps.to_vec(), class, prio }
+    GraphTask { id, deps: deps.to_vec(), class, prio, tl: 0, pad_mb: 0, pad_fill: 0 }
+}
+fn big(id: u32, tl: u32, pad_mb: u32, fill: u8) -> GraphTask {
+    GraphTask { id, deps: vec![], class: 0, prio: 0, tl, pad_mb, pad_fill: fill }
 }
 fn graph(tasks: Vec<GraphTask>) -> SubmitSpec {
     SubmitSpec { graph: tasks, ..arr(&[], 0, 0) }
@@ -164,6 +167,18 @@ pub fn get(name: &str) -> Option<Profile> {
             max_submits: 5, pf_max: 2,
             ..base(name)
         },
+        // task descriptions so large that the server has to split the ComputeTasks batch of one worker into several messages;
+        // tasks with equal descriptions (and time limits) on both sides of the split
+        "bigbody" => Profile {
+            worker_kinds: vec![wk(4)],
+            initial_workers: vec![0],
+            submits: vec![
+                graph(vec![big(1, 1, 17, 0), big(2, 0, 17, 1), big(3, 0, 0, 0), big(4, 1, 17, 0)]),
+                graph(vec![big(1, 2, 17, 2), big(2, 0, 0, 0), big(3, 1, 17, 3), big(4, 2, 17, 2)]),
+            ],
+            max_submits: 1, ticks: 3,
+            ..base(name)
+        },
         "variants" => Profile {
             worker_kinds: vec![WorkerKind { gpus: 1, ..wk(2) }, wk(2)],
             classes: vec![
@@ -217,4 +232,4 @@ pub fn get(name: &str) -> Option<Profile> {
     Some(p)
 }
 
-pub const ALL: &[&str] = &["jmixed", "jloss", "jmn", "happy", "mixed", "retract", "cancel", "loss", "maxfails", "open", "stream", "mn", "time", "variants", "timeretract", "retract2", "variants2"];
+pub const ALL: &[&str] = &["jmixed", "jloss", "jmn", "happy", "mixed", "retract", "cancel", "loss", "maxfails", "open", "stream", "mn", "time", "variants", "timeretract", "retract2", "variants2", "bigbody"];
